@@ -15,6 +15,8 @@ def cp(v):
         return {k: cp(x) for k, x in v.items()}
     if type(v) is list:
         return [cp(x) for x in v]
+    if type(v) is tuple:
+        return tuple(cp(x) for x in v)
     return v
 
 
